@@ -115,21 +115,24 @@ func (f *Field) getArg(name string) (av *ArgValue) {
 
 func (f *Field) sortArgs() (errors []error) {
 	if 0 < len(f.Args) {
-		if ot, _ := f.ConType.(*Object); ot != nil {
-			if fd := ot.fields.get(f.Name); fd != nil {
-				args := make([]*ArgValue, 0, len(f.Args))
-				for _, a := range fd.args.list {
-					args = append(args, f.getArg(a.N))
-				}
-				if len(args) != len(f.Args) {
-					for _, av := range f.Args {
-						if fd.getArg(av.Arg) == nil {
-							errors = append(errors, valError(av.line, av.col, "%s is not an argument to %s", av.Arg, f.Name))
-						}
-					}
-				}
-				f.Args = args
+		var fd *FieldDef
+		switch ct := f.ConType.(type) {
+		case *Object:
+			fd = ct.fields.get(f.Name)
+		case *Interface:
+			fd = ct.fields.get(f.Name)
+		}
+		if fd != nil {
+			args := make([]*ArgValue, 0, len(f.Args))
+			for _, a := range fd.args.list {
+				args = append(args, f.getArg(a.N))
 			}
+			for _, av := range f.Args {
+				if fd.getArg(av.Arg) == nil {
+					errors = append(errors, valError(av.line, av.col, "%s is not an argument to %s", av.Arg, f.Name))
+				}
+			}
+			f.Args = args
 		}
 	}
 	return
